@@ -1,9 +1,13 @@
 #!/bin/bash
-# tools/seedtest.sh <dir with patch.diff demo.py> <Cnn> : apply the seeded change to /repo, run the demo and the quick check, undo
-d=$1; p=$2
-cd /repo || exit 2
-if ! git apply --check "$d/patch.diff" 2>/dev/null; then echo "PATCH DOES NOT APPLY on $(git rev-parse --short HEAD)"; exit 3; fi
+# tools/seedtest.sh <dir with patch.diff demo.py> <Cnn> : apply the seeded change to a scratch worktree of /repo HEAD,
+# run the demo (with and without the change) and the quick check against it, then remove the worktree
+d=$1; p=$2; wt=/tmp/kawin-seedtest-$p
+git -C /repo worktree remove --force $wt 2>/dev/null
+git -C /repo worktree add -q $wt HEAD || exit 2
+cd $wt
+PYTHONPATH=$wt timeout 900 /venv/bin/python "$d/demo.py" > /tmp/seed_demo_clean.out 2>&1; echo "demo exit without change: $?"
+if ! git apply --check "$d/patch.diff" 2>/dev/null; then echo "PATCH DOES NOT APPLY on $(git rev-parse --short HEAD)"; git -C /repo worktree remove --force $wt; exit 3; fi
 git apply "$d/patch.diff"
-PYTHONPATH=/repo timeout 600 /venv/bin/python "$d/demo.py" > /tmp/seed_demo.out 2>&1; echo "demo exit with change: $?"
-cd /verif && KAWIN_SKIP_STATIC=1 timeout 1500 ./check $p --tier quick 2>&1 | grep "VIOLATION\|^#\|KNOWN\|quick:" | cut -c1-260 | head -8
-git -C /repo checkout -- . ; git -C /repo status --short | head -3
+PYTHONPATH=$wt timeout 900 /venv/bin/python "$d/demo.py" > /tmp/seed_demo.out 2>&1; echo "demo exit with change: $?"
+cd /verif && KAWIN_REPO=$wt KAWIN_SKIP_STATIC=1 timeout 1800 ./check $p --tier quick 2>&1 | grep "VIOLATION\|^#\|quick:" | cut -c1-260 | head -8
+git -C /repo worktree remove --force $wt
